@@ -12,7 +12,9 @@ hints describing pure-Python containers containing one or more items).
 # ....................{ IMPORTS                            }....................
 from beartype.roar import BeartypeConfException
 from beartype.typing import (
+    Annotated,
     Counter,
+    Dict,
     Optional,
     Tuple,
 )
@@ -306,24 +308,64 @@ def _infer_hint_mapping_items(
         hint = hint_factory
     # Else, at least one of these child key or value hints is no longer the
     # ignorable "object" superclass. In this case...
+    # Else, if this mapping is a counter (i.e., instance of the standard
+    # "collections.Counter" class)...
+    elif hint_factory is Counter:
+        # If all values inferred above are integers, subscript this factory by
+        # only this key union. A "Counter[...]" type hint implicitly constrains
+        # all values to be integers, which thus need *NOT* (and indeed *CANNOT*)
+        # be explicitly specified.
+        if _is_hint_ints(hints_value):
+            hint = hint_factory[hints_key]  # type: ignore[index]
+        # Else, one or more values are *NOT* integers. Although uncommon,
+        # counters permissively accept arbitrary values (e.g., floating-point
+        # weights). Since a "Counter[...]" type hint would erroneously reject
+        # this counter, fallback to a dictionary type hint additionally
+        # constrained to be a counter.
+        else:
+            # Defer heavyweight imports.
+            from beartype.vale import IsInstance
+            from collections import Counter as CounterType
+
+            hint = Annotated[
+                Dict[hints_key, hints_value], IsInstance[CounterType]]  # type: ignore[valid-type]
+    # Else, this mapping is *NOT* a counter. In this case, sequentially
+    # subscript this factory by both this key and value union.
     else:
-        # Type hint recursively validating this mapping, defined as either...
-        hint = (
-            # If this mapping is a counter (i.e., instance of the standard
-            # "collections.Counter" class), subscripting this factory by only
-            # this key union. By definition, *ALL* values of *ALL* counters are
-            # unconditionally constrained to be integers and thus need *NOT*
-            # (and indeed *CANNOT*) be explicitly specified;
-            hint_factory[hints_key]  # type: ignore[index]
-            if hint_factory is Counter else
-            # Else, this mapping is *NOT* a counter. In this case, sequentially
-            # subscripting this factory by both this key and value union.
-            hint_factory[hints_key, hints_value]  # type: ignore[index]
-        )
+        hint = hint_factory[hints_key, hints_value]  # type: ignore[index]
     # print(f'Inferred {repr(obj)} hint as {repr(hint)}...')
 
     # Return this hint.
     return hint
+
+
+def _is_hint_ints(hint: object) -> bool:
+    '''
+    :data:`True` only if the passed hint inferred from one or more mapping
+    values is either the :class:`int` type, the :class:`bool` subclass of that
+    type, *or* a union of only those types.
+    '''
+
+    # Avoid circular import dependencies.
+    from beartype._data.hint.sign.datahintsignset import HINT_SIGNS_UNION
+    from beartype._util.hint.pep.utilpepget import get_hint_pep_args
+    from beartype._util.hint.pep.utilpepsign import get_hint_pep_sign_or_none
+
+    # Return true only if either...
+    return (
+        # This hint is an integer type *OR*...
+        hint is int or hint is bool or
+        # This hint is a union of only integer types.
+        (
+            not isinstance(hint, type) and
+            get_hint_pep_sign_or_none(hint) in HINT_SIGNS_UNION and
+            bool(get_hint_pep_args(hint)) and
+            all(
+                hint_child is int or hint_child is bool
+                for hint_child in get_hint_pep_args(hint)
+            )
+        )
+    )
 
 
 def _infer_hint_reiterable_items(
